@@ -13,7 +13,7 @@ RULE = (
     "Hypothesis draws (kernel x resampler x clustering x blobs on/off x d x zero-likelihood region x case seed x scripted completion order); "
     "each case runs the same seeded sampler under every evaluation mode of its group - scalar map, vectorised (no blobs), a pool-like object "
     "whose map evaluates items in a scripted permutation, an executor-style object (submit+map) whose futures complete out of order, a real "
-    "ThreadPoolExecutor(4), pool=1, and (thorough tier, and 1 quick case in 6) a real 2-worker pool - and compares. "
+    "ThreadPoolExecutor(4), pool=1, and (thorough tier, and 1 quick case in 6) a real worker pool of 2, 3 or 5 processes with a batch size it does or does not divide - and compares. "
     "Non-trivial = >=2 modes compared over >=3 annealing iterations. distinct = case hash."
 )
 ASSUMPTIONS = [
@@ -28,14 +28,16 @@ def cases(draw):
     return {"kernel": draw(st.sampled_from(["tpcn", "rwm"])), "resample": draw(st.sampled_from(["mult", "syst"])),
             "clustering": draw(st.booleans()), "blobs": draw(st.booleans()), "d": draw(st.integers(1, 3)), "zero": draw(st.booleans()),
             "seed": draw(st.integers(0, 2**31 - 2)), "pool_seed": draw(st.integers(0, 10**6)),
-            "real_pool": draw(st.integers(0, 5)) == 0}
+            "real_pool": draw(st.integers(0, 5)) == 0,
+            # integer pools of a size that does / does not divide the batch
+            "pool_size": draw(st.sampled_from([2, 3, 3, 5])), "n_particles": draw(st.sampled_from([16, 16, 15, 17]))}
 
 
 def run_mode(case, mode, pool, check_calls=True):
     tm = "blobs" if case["blobs"] else mode
     t = Target.from_spec(simple_target_spec(np.random.default_rng(case["seed"]), case["d"], tm, zero=case["zero"]))
     np.random.seed(case["seed"])
-    s = make_sampler(t, dict(sample=case["kernel"], resample=case["resample"], clustering=case["clustering"], n_particles=16, pool=pool,
+    s = make_sampler(t, dict(sample=case["kernel"], resample=case["resample"], clustering=case["clustering"], n_particles=int(case.get("n_particles", 16)), pool=pool,
                              pool_seed=case["pool_seed"]))
     core = core_of(s)
     st_ = core.state
@@ -63,10 +65,10 @@ def execute(case, force_real=False):
         modes.insert(2, ("vector", "permuting"))  # a pool next to a vectorised likelihood must change nothing either
     real = case["real_pool"] or force_real
     if real:
-        modes.append(("scalar", 2))
+        modes.append(("scalar", int(case.get("pool_size", 2))))
     ref = None
     for mode, pool in modes:
-        snap, w, z, npts = run_mode(case, mode, pool, check_calls=(pool not in (2, "threads")))
+        snap, w, z, npts = run_mode(case, mode, pool, check_calls=not (pool == "threads" or (isinstance(pool, int) and pool > 1)))
         if ref is None:
             ref = (snap, w, z, f"mode={mode},pool={pool!r}")
             continue
